@@ -124,10 +124,16 @@ func (e *Engine) verifyFunc(fn *ssa.Function, fc *FuncContract) *FuncReport {
 
 func (e *Engine) symArgs(s *State, fn *ssa.Function, fc *FuncContract) []Value {
 	var args []Value
+	// a closure under contract: its captured variables come first (by value: the contract speaks about what the
+	// variables hold when the closure runs)
+	for _, fv := range fn.FreeVars {
+		args = append(args, s.symValue(fv.Type().(*types.Pointer).Elem(), fv.Name()))
+	}
+	nf := len(fn.FreeVars)
 	for i, p := range fn.Params {
 		nm := p.Name()
-		if fc != nil && i < len(fc.ParamNames) {
-			nm = fc.ParamNames[i]
+		if fc != nil && nf+i < len(fc.ParamNames) {
+			nm = fc.ParamNames[nf+i]
 		}
 		args = append(args, s.symValue(p.Type(), nm))
 	}
@@ -145,7 +151,19 @@ func (e *Engine) runPath(s *State, fn *ssa.Function, fc *FuncContract, rep *Func
 	if fc.Trusted {
 		return
 	}
-	res = s.run(fn, args, true, fc)
+	if nf := len(fn.FreeVars); nf > 0 {
+		// bind each free variable to a fresh cell holding the captured value
+		var cells []Value
+		for i, fv := range fn.FreeVars {
+			et := fv.Type().(*types.Pointer).Elem()
+			o := s.newObj(et, args[i], "captured."+fv.Name(), true)
+			cells = append(cells, &PtrV{Nil: False, Obj: o, Elem: et})
+		}
+		s.rootAllArgs = args
+		res = s.run(fn, args[nf:], true, fc, cells...)
+	} else {
+		res = s.run(fn, args, true, fc)
+	}
 	rep.Completed++
 	all := append(append([]Value{}, args...), res...)
 	// cover: this return is reachable under the preconditions
